@@ -21,6 +21,9 @@ pub enum ByteMut {
     /// overwrite the outer length prefix
     LenPrefix(LenKind),
     FlipRandomBit,
+    /// the byte at this offset becomes 0xff (sweep over the offsets of short messages: every field of an
+    /// unknown layout gets an out-of-range value once)
+    SetByteAt(usize),
     /// schema-free: the last length-prefixed vector of the message (found as a u64 v at some offset such that
     /// the rest of the message is v elements of one plausible size) is emptied
     TailVecEmpty,
@@ -80,6 +83,11 @@ pub fn apply_byte_mut(m: &ByteMut, data: &[u8], rng: &mut impl Rng) -> Vec<u8> {
         ByteMut::AllFF => { for b in d.iter_mut() { *b = 0xff; } }
         ByteMut::RandomSameLen => { rng.fill(&mut d[..]); }
         ByteMut::FlipRandomBit => { if !d.is_empty() { let i = rng.random_range(0..d.len()); d[i] ^= 1 << rng.random_range(0..8); } }
+        ByteMut::SetByteAt(off) => {
+            if let Some(b) = d.get_mut(*off) {
+                *b = if *b == 0xff { 0x7f } else { 0xff };
+            }
+        }
         ByteMut::TailVecEmpty => {
             if let Some((p, _, _)) = tail_vec(&d) {
                 d.truncate(p + 8);
